@@ -356,7 +356,11 @@ func (c *Cache) Log() []CacheOp {
 // CRLHandlers registers the HTTP handlers for one distribution point.
 func (k *Kit) CRLHandlers(net *netsim.Sim, slot int, beh string) {
 	host := k.F.Host(k.Pos, "d", slot)
-	basePath := host + "/base.crl"
+	kind := "http"
+	if slot < len(k.Shape.CRL) {
+		kind = k.Shape.CRL[slot]
+	}
+	basePath := k.F.BaseRoute(k.Pos, slot, kind)
 	deltaPath := host + "/delta0.crl"
 	cls := CRLClass(beh)
 	mk := func(r netsim.Reply, part string) netsim.Handler {
@@ -382,8 +386,9 @@ func (k *Kit) CRLHandlers(net *netsim.Sim, slot int, beh string) {
 		net.Handle(basePath, mk(netsim.Reply{Body: []byte("-----BEGIN X509 CRL-----\nnope\n")}, "base"))
 		return
 	case "oversize":
-		// streams one byte more than the fetcher's 32 MiB cap
-		net.Handle(basePath, mk(netsim.Reply{Stream: 32*1024*1024 + 1}, "base"))
+		// a genuine, clean CRL followed by padding up to one byte more than the
+		// fetcher's 32 MiB cap
+		net.Handle(basePath, mk(netsim.Reply{Body: k.CRL("clean", slot).BaseDER, Stream: 32*1024*1024 + 1}, "base"))
 		return
 	case "empty":
 		net.Handle(basePath, mk(netsim.Reply{Body: []byte{}}, "base"))
